@@ -17,9 +17,13 @@ ThreadNames == {"T" \o ToString(i) : i \in 1..48}
 PipeNames == {"p" \o ToString(i) : i \in 1..24}
 MinSet(S) == CHOOSE m \in S : \A x \in S : m <= x
 
-\* index of the call line matching the ret line at index i (same thread, latest before i)
-CallLine(i) == CHOOSE j \in 1..(i-1) : /\ Log[j].k = "call" /\ Log[j].th = Log[i].th
-                                     /\ \A k \in (j+1)..(i-1) : ~(Log[k].k = "call" /\ Log[k].th = Log[i].th)
+\* index of the call line matching the ret line at index i (same thread, latest before i); the search walks
+\* backwards from i and stops at the first match: its cost does not depend on the size of the batch
+RECURSIVE CallBack(_, _)
+CallBack(j, th) == IF j < 1 THEN 0
+                   ELSE IF Log[j].k \in {"call", "callc"} /\ Log[j].th = th THEN j
+                   ELSE CallBack(j - 1, th)
+CallLine(i) == CallBack(i - 1, Log[i].th)
 
 \* Evaluated as a state constraint: record progress, stop TLC at acceptance.
 Progress(l) ==
